@@ -769,4 +769,22 @@ theorem C20_identities_collide_with_slash :
   simp [verImpl, sortStrings, renderId, slash, lt]
 
 example : IdClean ⟨[0x61], [0x62], [], [0x63, 0x2f, 0x64]⟩ := ⟨by simp, by simp, by simp, by simp⟩
+
+/-- **The sections are not delimited from one another** (the known weakness of XEP-0115 that
+XEP-0390 repairs): *every* identity is written as the same bytes as the one feature
+`cat/type/lang/name`, so injectivity holds per section (`C20_identities_injective`,
+`C20_features_injective`) but not for the string as a whole — for clean input, too.  The code
+follows the XEP here (`C20_equals_xep_spec`); this is a limit of the property's "canonical",
+not a defect of the implementation. -/
+theorem C20_sections_collide (i : Identity) :
+    verImpl ⟨[i], [], []⟩ =
+      verImpl ⟨[], [i.cat ++ slash ++ i.typ ++ slash ++ i.lang ++ slash ++ i.name], []⟩ := by
+  simp [verImpl, sortStrings, renderId, renderFeat]
+
+/-- … with a clean identity and a `<`-free feature as witness -/
+theorem C20_sections_collide_clean :
+    ∃ (i : Identity) (f : Bytes), IdClean i ∧ LtFree f ∧ verImpl ⟨[i], [], []⟩ = verImpl ⟨[], [f], []⟩ :=
+  ⟨⟨[0x61], [0x62], [], [0x63]⟩, [0x61, 0x2f, 0x62, 0x2f, 0x2f, 0x63],
+    ⟨by simp, by simp, by simp, by simp⟩, by simp [LtFree],
+    by simpa [slash] using C20_sections_collide ⟨[0x61], [0x62], [], [0x63]⟩⟩
 end XmppModel.Props.C20
